@@ -11,11 +11,13 @@
    bundles — the document / endDocument frame, the default and prefix declarations, the
    blank line, one line per record — is read by the specification's reader (with the fuel
    it derives from the text's length, C06_fuel_suffices) as exactly the document's
-   records, in order, under the table its declarations build.  Bundles inside documents
-   are decided per run by running the extracted reader on the implementation's text
-   (partial). *)
+   records, in order, under the table its declarations build; with bundles
+   (C06_document_bundles): each bundle's frame, declarations and record lines, one level
+   deeper, are read as the bundle under the URI its identifier denotes with the bundle's own
+   declarations in scope, after the document's records.  Not covered (partial): containers
+   without records, names the reader's table does not resolve (findings C06-F1..F3). *)
 From Coq Require Import String Ascii List ZArith.
-From Prov Require Import Str Sexp Spec Nsm Values Record World Provn ProvnSpec ProvnProofs IsoProofs SpecProofs ProvnSpecProofs ProvnRecProofs ProvnDocProofs.
+From Prov Require Import Str Sexp Spec Nsm Values Record World Provn ProvnSpec ProvnProofs IsoProofs SpecProofs ProvnSpecProofs ProvnRecProofs ProvnDocProofs ProvnBundleProofs.
 Import ListNotations.
 Open Scope string_scope.
 
@@ -216,3 +218,43 @@ Example C06_document_applies :
                       L [A "http://e/k"; L [A "int"; sx_Z 5]]; L [A "http://e/k"; L [A "str"; A "x"]];
                       L [A (spec_prov_uri ++ "type"); L [A "qn"; A "http://e/T"]]]]]]).
 Proof. exact provn_document_applies. Qed.
+
+(* ---- documents with bundles.  doc_text_b: the document frame, the main container's body (declarations, blank
+   line after them if there are any, record lines), then every bundle: "bundle <id>", its own body one level deeper,
+   "endBundle".  bundle_ok: the identifier is a word that resolves, with the bundle's declarations applied on top of
+   the document's table, to pb_uri; the bundle's records meet rec_spec_ok under that table. *)
+Theorem C06_document_bundles_text : forall ds rs css bs,
+  let t := fold_left decl_apply ds builtin_ptable in
+  Forall decl_good ds -> Forall2 (rec_spec_ok t) rs css -> rs <> [] -> Forall (bundle_ok t) bs ->
+  ProvnSpec.read (doc_text_b ds rs bs)
+  = Some (L (A "content" :: L (A "bundle" :: A "" :: conts rs css) :: map bundle_cont bs)).
+Proof. exact provn_document_bundles. Qed.
+Print Assumptions C06_document_bundles_text.
+
+(* the printer's text is that text, for every document whose containers hold at least one record *)
+Theorem C06_printer_text_bundles : forall d pbs,
+  brecs (dmain d) <> [] -> Forall2 (fun kb pb => pb_matches (snd kb) pb) (dbundles d) pbs ->
+  doc_provn d = doc_text_b (decls_of (bns (dmain d))) (brecs (dmain d)) pbs.
+Proof. exact doc_provn_text_b. Qed.
+
+Theorem C06_document_bundles : forall d css pbs,
+  let ds := decls_of (bns (dmain d)) in
+  let t := fold_left decl_apply ds builtin_ptable in
+  brecs (dmain d) <> [] -> Forall2 (fun kb pb => pb_matches (snd kb) pb) (dbundles d) pbs ->
+  Forall decl_good ds -> Forall2 (rec_spec_ok t) (brecs (dmain d)) css -> Forall (bundle_ok t) pbs ->
+  ProvnSpec.read (doc_provn d)
+  = Some (L (A "content" :: L (A "bundle" :: A "" :: conts (brecs (dmain d)) css) :: map bundle_cont pbs)).
+Proof. exact provn_doc_provn_bundles. Qed.
+Print Assumptions C06_document_bundles.
+
+Example C06_document_bundles_applies :
+  ProvnSpec.read (doc_provn pdb_doc)
+  = Some (L [A "content";
+             L [A "bundle"; A "";
+                L [A "rec"; A (spec_prov_uri ++ "Entity"); A "http://e/e"; L []];
+                L [A "rec"; A (spec_prov_uri ++ "Usage"); A "http://e/u";
+                   L [L [A (spec_prov_uri ++ "activity"); L [A "qn"; A "http://e/a"]];
+                      L [A "http://e/k"; L [A "int"; sx_Z 5]]; L [A "http://e/k"; L [A "str"; A "x"]];
+                      L [A (spec_prov_uri ++ "type"); L [A "qn"; A "http://e/T"]]]]];
+             L [A "bundle"; A "http://e/b"; L [A "rec"; A (spec_prov_uri ++ "Agent"); A "http://e/ag"; L []]]]).
+Proof. exact provn_document_bundles_applies. Qed.
